@@ -54,6 +54,7 @@ func initNormalizationHeader() {
 			// The below can also accept quality values, see RFC 9110
 			"Accept-Encoding",
 			"TE",
+			"Te", // what http.CanonicalHeaderKey makes of "TE", and what every lookup uses
 		} {
 			normalizationHeader.byEncoding[field] = struct{}{}
 		}
